@@ -48,7 +48,7 @@ struct Step {
   uint32_t inst_options = 0;
   uint8_t extra_reg = 0;            // x86: 1..7 = AVX-512 mask register k1..k7 set through set_extra_reg() before the call
   uint8_t nops = 0;
-  OperandSpec ops[4];
+  OperandSpec ops[6];
   uint32_t a = 0, b = 0, c = 0;     // label indexes / sizes / alignment / section index
   int32_t d = 0;
   std::string text;                 // names, comments
